@@ -52,7 +52,7 @@ package cdata
 //@   ensures [C03.set1-footprint] nd.Impl[nd.Start + loc*nd.OffsetStep[0]] == val && forall(p, 0, nd.Impl.buflen, implies(p != nd.Start + loc*nd.OffsetStep[0], nd.Impl[p] == old(nd.Impl[p])))
 
 //@ func (*nd{t}C).Get1(nd, loc) returns (r)
-//@   locals idx, i
+//@   locals idx, i@loop
 //@   safety C03
 //@   requires len(nd.Dims) == 1 && len(nd.OffsetStep) >= 1
 //@   requires 0 <= nd.Start + loc*nd.OffsetStep[0] && nd.Start + loc*nd.OffsetStep[0] < nd.Impl.buflen
@@ -104,7 +104,7 @@ package cdata
 // ---- bulk operations of the C back-end against the same row-major definitions as the Go back-end (C02, C03) ----
 
 //@ func (*nd{t}C).Unroll(nd) returns (r)
-//@   locals length, res, dimOffsets, i, loc
+//@   locals length, res, dimOffsets, i@loop, loc
 //@   simplify entry-ids
 //@   safety C03
 //@   uses C02.lemma-iprod-positive, C02.lemma-idot-rm
@@ -120,7 +120,7 @@ package cdata
 //@   loop 0 invariant implies(i < length, 0 <= nd.Start + rmaddr(nd.Dims, nd.OffsetStep, i, len(nd.Dims), len(nd.Dims)) && nd.Start + rmaddr(nd.Dims, nd.OffsetStep, i, len(nd.Dims), len(nd.Dims)) < nd.Impl.buflen)
 
 //@ func (*nd{t}C).Apply(nd, loc, dim, step, vals)
-//@   locals sliceDim, sliceStep, start, i, v
+//@   locals sliceDim, sliceStep, start, i@loop, v@loop
 //@   simplify entry-ids
 //@   safety C03
 //@   callsite Set instantiate C01.lemma-idot-upd(old(seq(loc)), seq(loc), seq(nd.OffsetStep), dim, len(loc))
@@ -143,7 +143,7 @@ package cdata
 // ---- ApplySlice / CopyFrom of the C back-end (BOUNDED: rank <= 3, extents symbolic) ----
 
 //@ func (*nd{t}C).ApplySlice(nd, loc, step, vals)
-//@   locals shape, slice, idx, size, pos
+//@   locals shape, slice, idx, size, pos@loop
 //@   ndmodel rowmajor
 //@   simplify entry-ids
 //@   bounded rank <= 3 (the mixed-radix successor lemma is proved for ranks 1, 2 and 3; extents, strides and steps are symbolic)
@@ -246,7 +246,7 @@ package cdata
 
 // ---- Maximum / Minimum of a view: a bound of every element that one element attains (C02); BOUNDED by rank 3 ----
 //@ func (*nd{t}C).Maximum(nd) returns (r)
-//@   locals idx, res, shape, size, pos, v
+//@   locals idx, res, shape, size, pos@loop, v
 //@   safety C03
 //@   simplify entry-ids
 //@   bounded rank <= 3 (the mixed-radix successor lemma is proved for ranks 1, 2 and 3)
@@ -269,7 +269,7 @@ package cdata
 //@   loop 0 invariant exists(j, 0, size, nd.Impl[nd.Start + rmaddr(nd.Dims, nd.OffsetStep, j, len(nd.Dims), len(nd.Dims))] == res)
 
 //@ func (*nd{t}C).Minimum(nd) returns (r)
-//@   locals idx, res, shape, size, pos, v
+//@   locals idx, res, shape, size, pos@loop, v
 //@   safety C03
 //@   simplify entry-ids
 //@   bounded rank <= 3 (the mixed-radix successor lemma is proved for ranks 1, 2 and 3)
